@@ -151,6 +151,9 @@ class AErr:
         return f"{self.what}: {self.detail} at {getattr(self.term, 'origin', None)}"
 
 
+QR_CALLS: list = []  # (site, rows >= cols proven?, description) for every typed qr_r application in this process
+
+
 class AEnv:
     def __init__(self):
         self.types: dict = {}
@@ -314,6 +317,9 @@ class AEnv:
             rows, cols = t.axes
             if not rows.uniform or rows.label != ONE:
                 self.err("qr_r mixes rows with different units", v, f"row axis {rows} must be unit-uniform (white-noise axis)")
+            # shape census (used by C16): the stacked matrix has at least as many rows as columns iff one row segment alone has the column count
+            tall = same_size(rows.size, cols.size) or any(same_size(sg.size, cols.size) for sg in rows.segs) or is_one(cols.size)
+            QR_CALLS.append((getattr(v, "origin", None), bool(tall), f"rows {rows} x cols {cols}"))
             return AT([axis(cols.size), cols], t.scalar)
         if op in ("linalg.solve_triu", "linalg.solve_tril"):
             return self._solve(v, self.need(a[0]), self.need(a[1]), v.kwargs.get("trans", 0))
